@@ -28,8 +28,8 @@ Accepted subset (anything else raises TranslateError with file:line):
               an ALIAS of that part of y: reads and updates go to y);  d[k] = e on a
               dict;  if / elif / else;  for x in <file> / <list> / <str> with break,
               continue, else;  while <pure test>;  try / except C [as n] (no else /
-              finally), nested;  with codecs.open(name, 'r', encoding=e,
-              errors='surrogateescape') as f / with open(name, 'r') as f;  f.seek(0)
+              finally), nested;  with codecs.open(name, 'r', encoding=e
+              [, errors='surrogateescape']) as f (two different oracles) / with open(name, 'r') as f;  f.seek(0)
               (inside a loop over f only directly before `break`);  x.encode(e) as a
               statement;  return e;  print(..., file=sys.stderr) (dropped: stderr is
               not modelled; its arguments must only mention bound names);  docstrings,
